@@ -281,7 +281,7 @@ M("c11-recursion-open", "C11", "recursion on [0,m) instead of [0,m]",
 M("c11-heapify-low", "C11", "heapify starts one parent too low",
   (AR, "        for (i = count / 2 - 1; i >= 0; i--) {", "        for (i = count / 2 - 2; i >= 0; i--) {"))
 M("c11-search-lt", "C11", "binary search loops while i < j",
-  (AR, "    for (i = 0, j = count - 1; i <= j;) {", "    for (i = 0, j = count - 1; i < j;) {"))
+  (AR, "    for (i = 0, j = (ssize_t)count - 1; i <= j;) {", "    for (i = 0, j = (ssize_t)count - 1; i < j;) {"))
 M("c11-sift-smaller", "C11", "heap sift-down compares the right child against n instead of the current best",
   (AR, "        if (r < count\n            && cmp(__cstl_raw_array_at(arr, size, r),\n                   __cstl_raw_array_at(arr, size, c),", "        if (r < count\n            && cmp(__cstl_raw_array_at(arr, size, r),\n                   __cstl_raw_array_at(arr, size, n),"))
 M("c11-median-unsorted", "C11", "median-of-three leaves the triple unsorted (second comparison dropped)",
@@ -292,9 +292,9 @@ M("c11-find-last", "C11", "find keeps scanning and returns the last match",
   (AR, "        if (cmp(ex, __cstl_raw_array_at(arr, size, i), priv) == 0) {\n            return i;\n        }\n    }\n\n    return -1;", "        if (cmp(ex, __cstl_raw_array_at(arr, size, i), priv) == 0) {\n            r = i;\n        }\n    }\n\n    return r;"),
   (AR, "    size_t i;\n\n    for (i = 0; i < count; i++) {\n        if (cmp(ex,", "    size_t i; ssize_t r = -1;\n\n    for (i = 0; i < count; i++) {\n        if (cmp(ex,"))
 M("c11-search-static", "C11", "binary search keeps its bounds in static variables (not re-entrant)",
-  (AR, "    int i, j;\n\n    for (i = 0, j = count - 1; i <= j;) {", "    static int i, j;\n\n    for (i = 0, j = count - 1; i <= j;) {"))
+  (AR, "    ssize_t i, j;\n\n    for (i = 0, j = (ssize_t)count - 1; i <= j;) {", "    static ssize_t i, j;\n\n    for (i = 0, j = (ssize_t)count - 1; i <= j;) {"))
 M("c11-reverse-odd", "C11", "reverse stops one pair early",
-  (AR, "    for (i = 0, j = count - 1; i < j; i++, j--) {\n        swap(", "    for (i = 0, j = count - 1; i + 1 < j; i++, j--) {\n        swap("))
+  (AR, "    for (i = 0, j = (ssize_t)count - 1; i < j; i++, j--) {\n        swap(", "    for (i = 0, j = (ssize_t)count - 1; i + 1 < j; i++, j--) {\n        swap("))
 M("c11-swap-8-as-4", "C11", "cstl_swap moves only 4 bytes of 8-byte elements",
   ("include/cstl/common.h", "    case sizeof(uint64_t): EXCH(uint64_t, x, y, t); break;", "    case sizeof(uint64_t): EXCH(uint32_t, x, y, t); break;"))
 M("c11-vector-search-cap", "C11", "vector binary search covers capacity instead of size",
@@ -315,6 +315,10 @@ M("c13-element-offset-uint", "C13", "slist: node-to-element conversion narrows t
   (SL, "    return (void *)((uintptr_t)n - s->off);", "    return (void *)((uintptr_t)n - (unsigned int)s->off);"))
 M("c07-element-offset-int", "C07", "bintree (heap): node-to-element conversion narrows the offset to int",
   (BT, "    return (void *)((uintptr_t)bn - bt->off);", "    return (void *)((uintptr_t)bn - (int)bt->off);"))
+M("c11-search-int-index", "C11", "binary search keeps its indices in int again (the defect repaired by ca929c1)",
+  (AR, "    ssize_t i, j;\n\n    for (i = 0, j = (ssize_t)count - 1; i <= j;) {\n        const ssize_t n = i + (j - i) / 2;", "    int i, j;\n\n    for (i = 0, j = count - 1; i <= j;) {\n        const int n = (i + j) / 2;"))
+M("c11-reverse-int-index", "C11", "reverse keeps its indices in int again (the defect repaired by ca929c1)",
+  (AR, "    ssize_t i, j;\n\n    for (i = 0, j = (ssize_t)count - 1; i < j; i++, j--) {", "    int i, j;\n\n    for (i = 0, j = count - 1; i < j; i++, j--) {"))
 # ----------------------------------------------------------------- C15
 M("c15-dlist-cb-before-unlink", "C15", "dlist clear calls back before unlinking",
   (DL, "    while (l->size > 0) {\n        clr(__cstl_dlist_erase(l, l->h.n), NULL);\n    }", "    while (l->size > 0) {\n        struct cstl_dlist_node * const n = l->h.n;\n        clr(__cstl_dlist_element(l, n), NULL);\n        __cstl_dlist_erase(l, n);\n    }"))
